@@ -36,7 +36,7 @@ CarsC == [types |-> << <<q(8,1), 0, 2>>, <<q(4,1), q(4,1), 1>> >>, override |-> 
 
 L1Inits == {<<"loco", [units |-> <<u>>, cars |-> CarsB]>> : u \in Units1}
 L2Inits == {<<"loco", [units |-> <<u, v>>, cars |-> c]>> : u \in Units1, v \in Second, c \in {CarsC}}
-L1InitsT == {<<"loco", [units |-> <<u>>, cars |-> c]>> : u \in UnitsAll, c \in {CarsA, CarsB, CarsC}}
+L1InitsT == {<<"loco", [units |-> <<u>>, cars |-> c]>> : u \in UnitsAll, c \in {CarsA}}
 L2InitsT == {<<"loco", [units |-> <<u, v>>, cars |-> c]>> : u \in UnitsAll, v \in Second, c \in {CarsB, CarsC}}
 
 MuOpts == {"Mass", "ForceMax", "SetMassToNone"}
@@ -58,6 +58,7 @@ FileUnits == {[t |-> t, mass |-> m, mu |-> mu, force |-> f, base |-> bb[1], ball
                 bb \in {<<N, N, "no">>, <<q(1,1), q(1,1), "der">>, <<q(1,1), q(1,1), "bad">>, <<q(1,1), N, "der">>, <<N, N, "der">>}}
 FileUnit(r) == [r EXCEPT !.comps = CASE r.comps = "no" -> NoComps(r.t) [] r.comps = "der" -> DerComps(r.t) [] OTHER -> BadComps(r.t)]
 LoadLocos == {<<"loadloco", [units |-> <<FileUnit(r)>>, cars |-> CarsA]>> : r \in FileUnits}
+AllLoads == LoadComps \cup LoadLocos
 None == {}
 One == {1}
 Two == {1, 2}
